@@ -100,6 +100,14 @@ def bulk(ctx, p, q):
             got = [(getattr(ph, "name", ph), vf) for ph, vf, kw in rec]
             ok = len(got) >= len(order) and all(isinstance(vf, E) and vf == frac[name] for name, vf in got) and {n for n, _ in got} == set(order)
             ctx.ob("C08.bulk", tag, ok, "volume factors used: " + ", ".join(f"{n}: {short(v)}" for n, v in got), loc)
+            # every mineral is integrated over the caller's interval from the caller's deformation gradient: nothing is handed from one
+            # mineral of the list to the next, so the outcome cannot depend on their order
+            starts = list(driver.STARTS)
+            F0 = symarr("F0", (3, 3))
+            same = len(starts) == len(order) and all(lift(t0) == alg.sym("ta") and lift(t1) == alg.sym("tb") and
+                                                     all(lift(a) == lift(b) for a, b in zip(y0[:9], F0.flat)) for t0, t1, y0 in starts)
+            ctx.ob("C08.bulk", tag + ":independent starts", same,
+                   f"{len(starts)} integration(s) for {len(order)} mineral(s); starting F of each: {[short(y0[0]) for _, _, y0 in starts]}", loc)
     ctx.floor("C08.bulk", 8)
 
 
